@@ -191,7 +191,10 @@ def build_app():
 
         def get_server_metadata(self):
             return {"grant_types_supported": ["authorization_code"], "response_types_supported": ["code"], "scopes_supported": ["a", "b"],
-                    "token_endpoint_auth_methods_supported": ["client_secret_basic", "none"]}
+                    "token_endpoint_auth_methods_supported": ["client_secret_basic", "none"], "acr_values_supported": ["0", "1"], "subject_types_supported": ["public", "pairwise"],
+                    "id_token_signing_alg_values_supported": ["RS256", "ES256"], "id_token_encryption_alg_values_supported": ["RSA-OAEP"],
+                    "id_token_encryption_enc_values_supported": ["A128GCM"], "userinfo_signing_alg_values_supported": ["RS256"],
+                    "token_endpoint_auth_signing_alg_values_supported": ["RS256"], "request_object_signing_alg_values_supported": ["RS256", "none"]}
 
         def save_client(self, client_info, client_metadata, request):
             return object()
@@ -268,8 +271,9 @@ def build_app():
 
     server.register_endpoint(Revocation)
     server.register_endpoint(Introspection)
-    server.register_endpoint(Reg)
-    server.register_endpoint(Conf)
+    # (the claims classes are a constructor argument: a class attribute would be overwritten by __init__)
+    server.register_endpoint(Reg(claims_classes=[ClientMetadataClaims, OIDCClientMetadataClaims]))
+    server.register_endpoint(Conf(claims_classes=[ClientMetadataClaims, OIDCClientMetadataClaims]))
 
     class V(BearerTokenValidator):
         def authenticate_token(self, token_string):
@@ -613,7 +617,7 @@ def seg_mutations(rng, token, quick):
     # JSON that parses oddly: repeated member names (at the top and nested), literals outside the finite numbers, very deep nesting
     for raw in (b'{"alg":"HS256","kid":"k","alg":"HS256"}', b'{"alg":"HS256","alg":"none"}', b'{"alg":"HS256","jwk":{"kty":"oct","kty":"oct","k":"AA"}}',
                 b'{"alg":"HS256","x":NaN}', b'{"alg":"HS256","x":Infinity}', b'{"alg":"HS256","x":1e999}', b'{"alg":"HS256","x":-0}', b'{"alg":"HS256","x":1' + b"0" * 5000 + b"}",
-                b'{"alg":"HS256","x":' + b"[" * 100000 + b"]" * 100000 + b"}", b"[" * 100000, b'{"a":' * 50000, b'{"alg":"HS256","\ud800":1}', b'{"alg":"HS256","x":"\ud800"}',
+                b'{"alg":"HS256","x":' + b"[" * 100000 + b"]" * 100000 + b"}", b"[" * 100000, b'{"a":' * 50000, b'{"alg":"HS256","\\ud800":1}', b'{"alg":"HS256","x":"\\ud800"}',
                 b'\xef\xbb\xbf{"alg":"HS256"}', b' {"alg":"HS256"} ', b'{"alg":"HS256"}\n{"alg":"none"}', b'{"alg":"HS256",}', b"{'alg':'HS256'}"):
         bad_b64.append(b64u(raw))
     # the algorithm swapped for another registered one, of this and of other key families
@@ -931,6 +935,32 @@ def run_model(ctx):
         t = M("rb_claim_types", {"claims": d})
         if t[0] == "refuse":
             ctx.compare("rb_claim_types", {"claims": d}, real, t)
+    # 4b. OpenID Connect registration metadata: the type check names the same member as the code, and nothing of another type gets through to a validator
+    from authlib.oidc.registration import ClientMetadataClaims as OIDCClaims
+    obase = {"token_endpoint_auth_signing_alg": "RS256", "application_type": "web", "sector_identifier_uri": "https://x.example/s.json", "subject_type": "public",
+             "id_token_signed_response_alg": "RS256", "id_token_encrypted_response_alg": "RSA-OAEP", "id_token_encrypted_response_enc": "A128GCM",
+             "userinfo_signed_response_alg": "RS256", "userinfo_encrypted_response_alg": "RSA-OAEP", "userinfo_encrypted_response_enc": "A128GCM", "default_max_age": 60,
+             "require_auth_time": True, "default_acr_values": ["0"], "initiate_login_uri": "https://x.example/login", "request_object_signing_alg": "RS256",
+             "request_object_encryption_alg": "RSA-OAEP", "request_object_encryption_enc": "A128GCM", "request_uris": ["https://x.example/r"]}
+    ometa = {"acr_values_supported": ["0", "1"], "subject_types_supported": ["public"], "id_token_signing_alg_values_supported": ["RS256"]}
+    ocases = [dict(obase)]
+    for k in list(obase):
+        for v in PV_POOL:
+            d = dict(obase)
+            d[k] = v
+            ocases.append(d)
+    for d in ocases:
+        import copy
+        real = claim_of(outcome(lambda d=d: OIDCClaims(copy.deepcopy(d), {}, OIDCClaims.get_claims_options(ometa), ometa).validate()))
+        t = M("rb_oidc_claim_types", {"claims": d})
+        case = {"oidc_claims": d}
+        ctx.case(dict(case, fn="rb_oidc_claim_types"), ("oidc-types", json.dumps(d, sort_keys=True, default=repr)), "model:rb_oidc_claim_types:%s" % t[0])
+        if t[0] == "refuse":
+            ctx.compare("rb_oidc_claim_types", case, real, t)
+        else:
+            ctx.compare("rb_oidc_claim_types:typed-members-reach-no-type-error", case, real[0] != "exc", True)
+        if real[0] == "exc":
+            ctx.violation("C20:unit-crash:oidc-registration-claims:%s" % real[1], "OpenID Connect client metadata validation raised %s on a member of another type" % real[1], case)
     # 5. the registration body
     from authlib.oauth2.rfc7591 import ClientRegistrationEndpoint
 
